@@ -263,7 +263,7 @@ func (r rawSpec) build() ([]byte, error) {
 var MutantKinds = []string{
 	"lc+1", "lc-1", "unknown-prev", "wrong-payload", "sig-other-key", "sig-tampered", "kid-and-jwk", "no-kid-no-jwk",
 	"alg-hmac", "alg-none", "no-sigt", "no-ver", "no-prevs", "no-lc", "ver-3", "second-root", "two-signatures", "header-tampered",
-	"payload-hash-tampered", "kid-unknown", "lc-of-lower-prev", "lc-of-lower-prev",
+	"payload-hash-tampered", "kid-unknown", "lc-of-lower-prev", "lc-of-lower-prev", "wrong-payload-known-hash", "wrong-payload-known-hash",
 }
 
 // Mutant derives a defective transaction from a valid one. prevs are the CTx the base refers
@@ -271,6 +271,13 @@ var MutantKinds = []string{
 func (c *Corpus) Mutant(kind string, base *CTx, prevs []*CTx) *CTx {
 	key := c.Keys[c.Choose("mutant key", len(c.Keys))]
 	payload := []byte(fmt.Sprintf("%s-mutant-%d-%s", c.Tag, c.n, kind))
+	if kind == "wrong-payload-known-hash" {
+		// declares the payload hash of the base transaction, whose payload the node may already hold
+		if base == nil || base.Payload == nil {
+			return nil
+		}
+		payload = base.Payload
+	}
 	c.n++
 	ph := hash.SHA256Sum(payload)
 	lc := maxLC(prevs)
@@ -308,6 +315,11 @@ func (c *Corpus) Mutant(kind string, base *CTx, prevs []*CTx) *CTx {
 		bogus := hash.SHA256Sum([]byte(fmt.Sprintf("bogus-%d", c.n)))
 		spec.headers["prevs"] = append(append([]string{}, spec.headers["prevs"].([]string)...), bogus.String())
 		m.Prevs = append(append([]hash.SHA256Hash{}, m.Prevs...), bogus)
+	case "wrong-payload-known-hash":
+		// a valid transaction that declares a payload hash the node knows, offered with other bytes
+		m.PayloadDefect = true
+		m.Valid = true
+		m.Payload = append([]byte("Y"), payload...)
 	case "wrong-payload":
 		// the transaction itself is fine; the payload offered with it is not the declared one
 		m.PayloadDefect = true
